@@ -2,11 +2,49 @@
 from checks_common import three
 
 CHECK = {
-    "runs": three("c14_ids", [], scales=(0.5, 1.0, 1.5)),
+    "runs": three("c14_ids", [], scales=(0.12, 0.25, 0.6)),
     "design_ref": "DESIGN.md §5 C14",
-    "technique": "placeholder",
-    "level_text": "placeholder",
-    "level_note": "placeholder",
-    "rule": "placeholder",
-    "expect_counters": [],
+    "technique": "concurrent allocate/deallocate stress over a tiny id range with PCT-style stalls in the CAS windows "
+                 "(ida:* hook points), shadow ownership flags + plain owner tags, solo phases against a model free set, "
+                 "for_each vs the held set at quiescence; thread generations for ThreadId / LeakyThreadId; deposit-box "
+                 "rounds with racing takers and stale-id retries after up to 10^4 slot reuses; TSan/ASan/UBSan",
+    "level_text": ("Runtime monitoring of the real IdAllocator<uint16_t/uint32_t>, ThreadId/LeakyThreadId (harness tag "
+                   "types) and DepositBox. ida episodes: 2-32 threads (mostly 2-6) each holding at most 1-3 ids of one "
+                   "fresh allocator allocate/deallocate at random in 2-4 concurrent phases with stalls between the head "
+                   "load and the CAS; an atomic shadow flag per id value is test-and-set after allocate() returned and "
+                   "cleared before deallocate() is called (two owners = violation), a plain owner tag is written by each "
+                   "owner and verified before release (TSan decides whether the free-list head orders successive owners); "
+                   "after every phase for_each must equal the held set, ranges well formed, end() above every value "
+                   "returned; solo phases in one thread are compared with a model free set ([0,end) minus held): "
+                   "allocate() must return a member of it when it is non-empty, the next fresh value otherwise; a "
+                   "sequential sub-mode drives 100-700 live ids so for_each crosses the 128-value blocks. tid episodes: "
+                   "generations of threads (up to 300 alive in plain, 150 under sanitizers) born one by one (solo: id "
+                   "from the model free set) or in bursts racing with deaths; live ids unique, stable per thread, "
+                   "for_each == live set at quiescence, end() above every id seen. dbox episodes: 1-3 lanes of one "
+                   "depositor and 2-8 takers on a private DepositBox instance (or the singleton); every taker calls "
+                   "take()/take_released() once on each id and retries ids it knows to be taken later in the episode "
+                   "(up to >10^4 reuses of the slot): exactly one winner per id, it reads that id's serial, a stale id "
+                   "never matches, a slot is never handed out by emplace() before its previous item was finished; "
+                   "takers report back through relaxed counters only, so reuse of a slot is ordered by the library or "
+                   "TSan reports it. Held on the executions observed, not a proof."),
+    "level_note": ("Trusted: gcc sanitizer runtimes and the harness. The solo-phase model of IdAllocator is exact "
+                   "(every allocate of every solo phase is compared); the concurrent phases are sampled schedules."),
+    "rule": ("one evaluation = one seeded episode of kind ida / dbox / tid (4:2:2). distinct = configuration + a digest "
+             "of the outcome (end(), allocation count, hand-overs / winner sequence of the first 64 rounds / alive counts "
+             "per generation). non-trivial = ida: at least one id value changed hands between two different threads in a "
+             "concurrent phase (or the sequential many-ids sub-mode); dbox: the winning taker changed more than twice "
+             "between consecutive rounds; tid: at least one solo birth reused a dead thread's id or a concurrent birth "
+             "burst happened. Summed over sanitizer variants."),
+    "expect_counters": ["point:ida:alloc_before_cas", "point:ida:dealloc_before_cas", "point:dbox:version_stored",
+                        "point:dbox:take_won", "policy:stall_fired", "obs:ida_handover_between_threads",
+                        "obs:ida_solo_reused", "obs:ida_solo_fresh", "obs:ida_for_each_multi_range",
+                        "obs:ida_for_each_crossed_block", "obs:ida_episodes_with_stall_in_cas_window",
+                        "obs:tid_solo_births_reusing_a_dead_threads_id", "obs:tid_concurrent_births",
+                        "obs:tid_for_each_crossed_block", "obs:dbox_stale_retries",
+                        "obs:dbox_stale_retry_after_1000_rounds", "obs:dbox_slot_reused_1000_times",
+                        "obs:dbox_winner_changed_between_rounds"],
+    "not_decidable": ["version wrap-around of the 16/32-bit version fields (needs 2^16 / 2^32 pushes between a stalled "
+                      "thread's load and its CAS, or 2^32 reuses of one deposit slot)"],
+    "assumptions": ["documented usage: finish_released / ~Accessor exactly once by the winner; deallocate only of held ids",
+                    "thread-local destructors (ThreadId release) have run when std::thread::join returns"],
 }
